@@ -19,6 +19,9 @@ from concurrent.futures import ThreadPoolExecutor
 
 VERIF = os.path.dirname(os.path.dirname(os.path.abspath(__file__)))
 PY = '/venv/bin/python'
+sys.path.insert(0, os.path.dirname(os.path.abspath(__file__)))
+import _snap  # noqa: E402
+SNAP = _snap.snapshot()
 
 
 def sh(cmd, cwd=None):
@@ -34,7 +37,7 @@ def claimed():
 
 def run_checks(wt):
   def one(p):
-    rc, out = sh([PY, os.path.join(VERIF, 'tflsa', 'check.py'), p,
+    rc, out = sh([PY, os.path.join(SNAP, 'tflsa', 'check.py'), p,
                   '--repo', wt, '--no-evidence'])
     lines = [l for l in out.splitlines()
              if 'rule=' in l or 'ANALYSIS-ERROR' in l]
